@@ -176,11 +176,15 @@ claim("C19", "def-use / delegation checks of SampledKLEnergyClass, ResidualSampl
       "optimises only the liquid part (typed insert/remove table for value_and_grad, metric and result). Numerical equality with "
       "sample averages is not decided.", TRUST, "DESIGN.md section 9.6")
 
-claim("C04", "def-use / dominance check of EnergyAdapter's constant handling",
+claim("C04", "def-use / dominance check of EnergyAdapter's constant handling; per-pixel term identity of the hand-written energy specialisation; sibling/structure rules on the combinators' specialisation methods",
       "Decides only the clause 'energies minimised with constant keys never see gradient components for those keys': with constants "
       "the adapter specialises the operator to the constant part of the full position, optimises position.extract_by_keys(domain keys "
       "minus constants), stores and evaluates the specialised operator and keeps it in at(); the sampled KL optimises the reduced "
-      "expansion point. Equality of value/Jacobian/metric with the original operator is numerical and not decided.", TRUST,
+      "expansion point; the one energy with a hand-written specialisation (VariableCovarianceGaussianEnergy) equals, per pixel and for "
+      "real and complex sampling, the full energy with the constant inserted (terms read from both classes, sympy as normaliser); "
+      "_OpProd/_OpSum/SumOperator hand each constituent the constants of its own domain and rebuild the same combinator in order, "
+      "chains walk from the input side threading the constant output, the generic fallback inserts the constants in front of the "
+      "unchanged operator. Equality of value/Jacobian/metric for arbitrary operator expressions is numerical and not decided.", TRUST,
       "DESIGN.md section 9.6")
 
 claim("C30", "term comparison: function bodies of the closed-form transforms read into symbolic terms (Phi/PhiInv abstract) and compared with a frozen table of textbook quantile and moment formulas, sympy as normaliser; structural check of the tabulated quantile compositions",
